@@ -161,6 +161,20 @@ inductive Op where
   | deleteConflict (id : LogId)
   deriving Repr
 
+/-- index of the persisted snapshot as read from `snapshot_meta` -/
+def storedSnapIndex (d : Disk) : Option Nat :=
+  match d.snapMeta with
+  | some t => oidx t.metaLast
+  | none => none
+
+/-- `build_snapshot`'s guard: the persisted snapshot is newer than the one this builder captured
+(`stored_index > captured index` on `Option<u64>`, `None` smallest) — then nothing is written -/
+def staleBuild (d : Disk) (s : Snapshot) : Bool :=
+  match storedSnapIndex d, oidx s.metaLast with
+  | some y, some x => x < y
+  | some _, none => true
+  | none, _ => false
+
 /-- the entries `apply` hands to `apply_to_state_machine`: `try_get_log_entries(last_applied+1 ..= j)` -/
 def toApply (nd : Node) (j : Nat) : List Entry :=
   nd.disk.ls.log.filter (fun e => above (oidx nd.mem.lastApplied) e.id.index && e.id.index ≤ j)
@@ -181,7 +195,7 @@ def writesOf (nd : Node) : Op → List Write
   | .beginSnapshot => []
   | .finishSnapshot =>
       match nd.pending with
-      | some s => [[.putSnapData s, .putSnapMeta s]]
+      | some s => if staleBuild nd.disk s then [] else [[.putSnapData s, .putSnapMeta s]]
       | none => []
   | .installSnapshot s =>
       [[.putApplied s.metaLast, .putMembership s.metaMembership, .putSnapData s, .putSnapMeta s]]
